@@ -1,5 +1,8 @@
 use core::any::TypeId;
+#[cfg(not(unimock_verif))]
 use core::sync::atomic::AtomicUsize;
+#[cfg(unimock_verif)]
+use crate::verif::AtomicUsize;
 
 use crate::alloc::{vec, BTreeMap, Vec};
 use crate::debug;
@@ -36,6 +39,11 @@ impl SharedState {
     pub fn bump_ordered_call_index(&self) -> usize {
         self.next_ordered_call_index
             .fetch_add(1, core::sync::atomic::Ordering::SeqCst)
+    }
+
+    #[cfg(unimock_verif)]
+    pub(crate) fn verif_peek_ordered_call_index(&self) -> usize {
+        self.next_ordered_call_index.peek()
     }
 
     pub fn clone_panic_reasons(&self) -> Vec<error::MockError> {
